@@ -390,3 +390,5 @@ def run(ctx):
     r13_5(ctx)
     r13_6_7_8(ctx)
     r13_9(ctx)
+    from ..initflags import group_rule
+    group_rule(ctx, "R13.10", "placement", "a component's location and the workplace's contents are reset separately and disagree afterwards")
